@@ -104,6 +104,9 @@ func checkC11(p *Prog, r *Report) {
 	rOut := r.Rule("output-record", "the output 'Shell I/O' record is emitted iff the chunk was handed to the operator channel, with that chunk")
 	rConn := r.Rule("connection-records", "every attached stream logs New connection and exactly one Disconnected record; every refusal outside shutdown logs an Error record with a true reason; the proxies' logger carries the direction")
 	rWire := r.Rule("wiring", "JSON handler at default level over the append-only -log file; the per-request logger reaches the broker")
+	/* An input record means delivered: the flush whose success it reports
+	must be able to fail (C02's rule, under this property's input clause). */
+	checkTransportWriter(p, r, r.Rule("transport-writer", "what the handlers give the broker as the stream writer is the ResponseWriter itself, or a type which offers FlushError: otherwise a failed flush still gets its 'Shell I/O' record"))
 
 	shellIO, ok := iobConst(p, "LMShellIO")
 	lkData, ok2 := iobConst(p, "LKData")
